@@ -69,6 +69,9 @@ def register(reg):
         lo, hi = prim.min_val, prim.max_val
         common = dict(relpath="hippolyzer/lib/base/serialization.py", cls=None, prop=PID, engine="fp", frame=None,
                       param_values={"self": o}, consts={"se": se, "math": math})
+        # obligations measured above ~2 minutes on 16 busy cores run in the thorough tier only (all were discharged there)
+        slow_rt = name.startswith(("PackedTERotation", "QuantizedFloat_H_-5.0_5.0", "QuantizedFloat_h_-1.0000", "QuantizedFloat_H_-256.0_4096.0"))
+        slow_mono = name.startswith("PackedTERotation")
         if isinstance(o, se.QuantizedFloatBase):
             is_rot = type(o).__name__ == "PackedTERotation"
             # known finding (known_findings.txt): PackedTERotation raw -32768 decodes to -2*pi, which the encoder deliberately wraps
@@ -76,11 +79,11 @@ def register(reg):
             # bounded tier as KNOWN-FINDING; every other raw value is proved here.
             reg.add_fn(FnContract(key=f"C10:{name}/roundtrip", qualname="roundtrip", params={"raw": f"Raw:{bits}:{sg}"}, param_names=["raw"],
                                   source="def roundtrip(self, raw):\n    return self.encode(self.decode(raw, None), None)\n",
-                                  requires=([f"raw != {lo}"] if is_rot else []),
+                                  requires=([f"raw != {lo}"] if is_rot else []), tier=("thorough" if slow_rt else "quick"),
                                   ensures=["result == raw"], **common))
             reg.add_fn(FnContract(key=f"C10:{name}/monotone", qualname="monotone", params={"raw": f"Raw:{bits}:{sg}"}, param_names=["raw"],
                                   source="def monotone(self, raw):\n    return self.decode(raw, None) <= self.decode(raw + 1, None)\n",
-                                  requires=[f"raw < {hi}"], ensures=["result"], **common))
+                                  requires=[f"raw < {hi}"], ensures=["result"], tier=("thorough" if slow_mono else "quick"), **common))
             is_rot = type(o).__name__ == "PackedTERotation"
             ends = [f"self.decode({lo}, None) == {o.lower!r}"] + ([] if is_rot else [f"self.encode({o.lower!r}, None) == {lo}"])
             if not is_rot:
